@@ -329,6 +329,13 @@ func (g *e3gen) stream() []byte {
 		} else if g.chance(0.1) {
 			mid += uint64(g.pick(4))
 		}
+		// ids are plain unsigned 64-bit numbers: jumps into the upper half are ordinary
+		if g.chance(0.04) && sid < 1<<63 {
+			sid |= 1 << 63
+			mid = uint64(1 + g.pick(3))
+		} else if g.chance(0.04) && mid < 1<<63 {
+			mid |= 1 << 63
+		}
 	}
 	if mode == 2 {
 		switch g.pick(4) {
@@ -546,6 +553,12 @@ func (g *e3gen) oldWriterStream() []byte {
 		if g.chance(0.2) {
 			sid++
 			mid = 1
+		}
+		if g.chance(0.05) && sid < 1<<63 {
+			sid |= 1 << 63
+			mid = 1
+		} else if g.chance(0.05) && mid < 1<<63 {
+			mid |= 1 << 63
 		}
 	}
 	_ = w.Flush(context.Background())
